@@ -163,6 +163,17 @@ def _new(ctx: Ctx, cls: ClassInfo) -> AObj:
         raise AnalysisError("cannot evaluate the constructor of %s: %s" % (cls.name, ex))
 
 
+def _new_schema(ctx: Ctx, dsb: ClassInfo, union: bool) -> AObj:
+    """a fresh schema builder, made a union through its public interface"""
+    me = _new(ctx, dsb)
+    if union:
+        try:
+            Folder({"self": me}, ctx.repo, dsb.module, dsb, _layout_hook(ctx, dsb.module, dsb)).fold(ast.parse("self.make_union()", mode="eval").body)
+        except (Unfoldable, Raised) as ex:
+            raise AnalysisError("DataSchemaBuilder.make_union(): cannot evaluate: %s" % ex)
+    return me
+
+
 def _expr_hook(ctx: Ctx, mod: Any, cls: Optional[ClassInfo]) -> Any:
     """layout hook + the expression-value constructors as inert records + super()._attribute(x) as a marker"""
     lh = _layout_hook(ctx, mod, cls)
@@ -194,13 +205,12 @@ def _expr_hook(ctx: Ctx, mod: Any, cls: Optional[ClassInfo]) -> Any:
 
 def rule_r3(ctx: Ctx) -> None:
     repo = ctx.repo
-    ctx.rule("C08.R3", "intrinsics: _offset_ / _bit_length_ / _extent_ are wired to the layout model; attribute lookups fall back to the parent class; unions reject fields after _offset_ was evaluated", min_instances=7)
+    ctx.rule("C08.R3", "intrinsics: _offset_ / _bit_length_ / _extent_ are wired to the layout model; attribute lookups fall back to the parent class; unions reject fields after _offset_ was evaluated", min_instances=5)
     dsb = ctx.cls("_data_schema_builder.DataSchemaBuilder")
     off = dsb.methods.get("offset")
     if off is None or not off.is_property:
         raise AnalysisError("anchor DataSchemaBuilder.offset (property) missing")
     bad = []
-    flags: set = set()
     hookf = _layout_hook(ctx, off.module, dsb)
     q_off = ast.parse("self.offset", mode="eval").body
     q_add = ast.parse("self.add_field(x)", mode="eval").body
@@ -209,26 +219,16 @@ def rule_r3(ctx: Ctx) -> None:
             fields = [Sym(data_type=t, name="f%d" % i, _isa_=FIELD) for i, t in enumerate(ts)]
             # the offset is queried after `cut` fields and again after all of them (a structure may grow between queries)
             for cut in ([len(ts)] if union else range(len(ts) + 1)):
-                me = set_public(_new(ctx, dsb), fields=[], union=union, constants=[])
-                before = dict(me.__dict__)
+                holder: Dict[str, Any] = {}
 
                 def run() -> Any:
-                    me_fields = me.fields
-                    del me_fields[:]
-                    for k in list(me.__dict__):
-                        if k not in before:
-                            del me.__dict__[k]
-                    for k, v in before.items():
-                        if not isinstance(v, list):
-                            me.__dict__[k] = v
+                    me = _new_schema(ctx, dsb, union)  # a fresh schema on every explored run
+                    holder["me"] = me
                     out = []
                     done = 0
                     for stop in sorted({cut, len(ts)}):
                         for x in fields[done:stop]:
-                            if union:
-                                me_fields.append(x)
-                            else:
-                                Folder({"self": me, "x": x}, repo, off.module, dsb, hookf).fold(q_add)
+                            Folder({"self": me, "x": x}, repo, off.module, dsb, hookf).fold(q_add)
                         done = stop
                         out.append((stop, Folder({"self": me}, repo, off.module, dsb, hookf).fold(q_off)))
                     return out
@@ -244,30 +244,37 @@ def rule_r3(ctx: Ctx) -> None:
                         if got != want:
                             _verdict(ctx, off, assumptions)
                             bad.append({"union": union, "field alignments": [t.alignment_requirement for t in ts], "queried after": sorted({cut, len(ts)}), "at": stop, "found": repr(got), "expected": repr(want)})
-                flags |= {k for k, v in me.__dict__.items() if v is True and before.get(k) is not True and not k.endswith("_")}
-                if [id(x) for x in me.fields] != [id(x) for x in fields]:
-                    bad.append({"note": "the field list was modified by the query"})
+                try:
+                    now = Folder({"self": holder["me"]}, repo, off.module, dsb, hookf).fold(ast.parse("self.fields", mode="eval").body)
+                except (Unfoldable, Raised) as ex:
+                    raise AnalysisError("DataSchemaBuilder.fields: cannot evaluate: %s" % ex)
+                if [id(x) for x in now] != [id(x) for x in fields]:
+                    bad.append({"note": "the field list was modified by the query", "fields": [getattr(x, "name", "?") for x in now]})
     ctx.check(not bad, off.short, "offset over abstract fields, both kinds", "`_offset_` is the layout aggregate of exactly the fields declared so far, of the kind the final type will have, without the final padding", off.where(), bad[:2])
     # observing the offset marks the schema; a union must not grow afterwards
     af = dsb.methods.get("add_field")
     if af is None:
         raise AnalysisError("anchor DataSchemaBuilder.add_field missing")
     outcomes = {}
+    F1, F2 = (Sym(data_type=_field_type_grids()[1][0], name=n, _isa_=FIELD) for n in ("x", "y"))
     for union in (False, True):
         for observed in (False, True):
-            me = set_public(_new(ctx, dsb), fields=[], union=union, constants=[])
-            for fl in flags:
-                me.__dict__[fl] = observed
+            me = _new_schema(ctx, dsb, union)
+            fo = Folder({"self": me, "x": F1, "y": F2}, repo, af.module, dsb, _layout_hook(ctx, af.module, dsb))
             try:
-                Folder({"self": me, "x": Sym(data_type=_field_type_grids()[1][0], name="x", _isa_=FIELD)}, repo, af.module, dsb, _layout_hook(ctx, af.module, dsb)).fold(ast.parse("self.add_field(x)", mode="eval").body)
-                outcomes[(union, observed)] = "added" if len(me.fields) == 1 else "dropped"
+                fo.fold(ast.parse("self.add_field(x)", mode="eval").body)
+                if observed:
+                    fo.fold(q_off)
+                fo.fold(ast.parse("self.add_field(y)", mode="eval").body)
+                n_now = len(fo.fold(ast.parse("self.fields", mode="eval").body))
+                outcomes[(union, observed)] = "added" if n_now == 2 else "dropped"
             except Raised as r:
                 outcomes[(union, observed)] = r.cls_name
             except Unfoldable as ex:
                 raise AnalysisError("%s: cannot evaluate: %s" % (af.short, ex))
             ctx.count()
     want_o = {(False, False): "added", (False, True): "added", (True, False): "added", (True, True): "BitLengthAnalysisError"}
-    ctx.check(bool(flags) and outcomes == want_o, dsb.short, "offset marks the schema (%s); add_field: %s" % (sorted(flags), {"union=%s,observed=%s" % k: v for k, v in outcomes.items()}), "inter-field offsets are not defined for unions: a union must not grow after its offset was observed", dsb.module.relpath)
+    ctx.check(outcomes == want_o, dsb.short, "add_field after the offset was observed: %s" % ({"union=%s,observed=%s" % k: v for k, v in outcomes.items()}), "inter-field offsets are not defined for unions: a union must not grow after its offset was observed", dsb.module.relpath)
     # selection agreement with the final type
     mk = ctx.func("_data_type_builder.DataTypeBuilder._make_composite")
     sel = []
@@ -288,99 +295,132 @@ def rule_r3(ctx: Ctx) -> None:
     rt = dtb.methods.get("resolve_top_level_identifier")
     if rt is None:
         raise AnalysisError("anchor resolve_top_level_identifier missing")
-    from .builder_common import definition_sym
-    from ..absint import construct
+    from . import builder_common as B
 
-    from ..absint import ctor_hook
+    # the same builder, driven through its public callbacks, is asked for `_offset_` and for constants while the current
+    # section grows and a new section begins: every answer must be that of the current section as it is *now*
+    def T(i: int, a: int = 1) -> Sym:
+        return Sym(bit_length_set=TBls.var("T%d" % i, a), alignment_requirement=a, name="T%d" % i)
 
-    hook_e = _expr_hook(ctx, rt.module, dtb)
-    try:
-        me = construct(ctx, dtb, definition_sym(), [], [], Sym(_kind_="print-handler"), False, hook=ctor_hook(ctx, hook_e, only=[dsb.name]))
-    except (Raised, Unfoldable) as ex:
-        raise AnalysisError("cannot evaluate the constructor of DataTypeBuilder: %s" % ex)
-    slots = [k for k, v in me.__dict__.items() if isinstance(v, list) and v and all(isinstance(x, AObj) and x._cls_ is dsb for x in v)]
-    if len(slots) != 1:
-        raise AnalysisError("DataTypeBuilder: the list of schema sections was not found among %s" % sorted(me.__dict__))
-    sections = me.__dict__[slots[0]]
+    VAL1, VAL2 = Sym(_kind_="value", label="K of the request"), Sym(_kind_="value", label="K of the response")
 
-    def ask(nm: str) -> Any:
+    def fresh() -> Tuple[Any, Any]:
+        b_, _run, hook_ = B.make_builder(ctx, base_hook=_expr_hook(ctx, rt.module, dtb))
+        return b_, hook_
+
+    def call(b_: Any, hook_: Any, name: str, *args: Any) -> Any:
+        env = {"b": b_}
+        env.update({"a%d" % i: a for i, a in enumerate(args)})
         try:
-            return Folder({"self": me, "n": nm}, repo, rt.module, dtb, hook_e).fold(ast.parse("self.resolve_top_level_identifier(n)", mode="eval").body)
+            return Folder(env, repo, rt.module, dtb, hook_).fold(ast.parse("b.%s(%s)" % (name, ", ".join("a%d" % i for i in range(len(args)))), mode="eval").body)
         except Raised as r:
             return "raise " + r.cls_name
         except Unfoldable as ex:
-            raise AnalysisError("%s: cannot evaluate: %s" % (rt.short, ex))
+            raise AnalysisError("DataTypeBuilder.%s: cannot evaluate over abstract arguments: %s" % (name, ex))
 
-    def section(n_fields: int, offset: str, consts: List[Any]) -> Any:
-        return set_public(_new(ctx, dsb), fields=[Sym(name="f%d" % i, _isa_=FIELD) for i in range(n_fields)], union=False, constants=consts, offset=TBls.var(offset))
+    def elements(term: Any) -> str:
+        return repr(("Set", (("Rational", ("ELEMENTS-OF", term.term)),)))
 
-    def elements(v: str) -> Any:
-        return ("Set", (("Rational", ("ELEMENTS-OF", ("var", v, 1))),))
-
-    # the same builder is asked again and again while the current section grows and a new section begins: every answer
-    # must be the offset of the current section as it is *now* (no stale answer from an earlier state or section)
-    K = [Sym(name="J", value="VJ"), Sym(name="K", value="VK")]
-    W = [Sym(name="K", value="WRONG-SECTION")]
+    # a state: which fields the request has, whether the response has begun and which fields it has
     states = {
-        "request, 1 field": (lambda: [section(1, "O1", K)], "O1"),
-        "request, 2 fields": (lambda: [section(2, "O2", K)], "O2"),
-        "response, 1 field": (lambda: [section(2, "O2", W), section(1, "O3", K)], "O3"),
-        "response, 2 fields": (lambda: [section(2, "O2", W), section(2, "O4", K)], "O4"),
-        "response, no field": (lambda: [section(1, "O1", W), section(0, "O5", K)], "O5"),
+        "request, 1 field": ([0], None), "request, 2 fields": ([0, 1], None), "response, no field": ([0], []),
+        "response, 1 field": ([0, 1], [2]), "response, 2 fields": ([0, 1], [2, 3]),
     }
     bad_seq = []
-    for a_label, (a_make, a_var) in states.items():
-        for b_label, (b_make, b_var) in states.items():
-            # a fresh builder is asked in state A and then in state B: no answer may be carried over
-            try:
-                me = construct(ctx, dtb, definition_sym(), [], [], Sym(_kind_="print-handler"), False, hook=ctor_hook(ctx, hook_e, only=[dsb.name]))
-            except (Raised, Unfoldable) as ex:
-                raise AnalysisError("cannot evaluate the constructor of DataTypeBuilder: %s" % ex)
-            sections = me.__dict__[slots[0]]
-            for label, make, want_var in ((a_label, a_make, a_var), (a_label + " (asked again)", None, a_var), (b_label, b_make, b_var)):
-                if make is not None:
-                    sections[:] = make()
-                got = ask("_offset_")
+    for a_label, a_state in states.items():
+        for b_label, b_state in states.items():
+            if (a_state[1] is not None and b_state[1] is None) or len(b_state[0]) < len(a_state[0]) or (a_state[1] is not None and (b_state[1] is None or len(b_state[1]) < len(a_state[1]) or b_state[0] != a_state[0])):
+                continue  # a definition only grows
+            b_, hook_ = fresh()
+            cur_rq: List[int] = []
+            cur_rs: Optional[List[int]] = None
+            for label, (rq, rs) in ((a_label, a_state), (a_label + " (asked again)", a_state), (b_label, b_state)):
+                for i in rq[len(cur_rq):]:
+                    call(b_, hook_, "on_field", T(i), "f%d" % i)
+                    call(b_, hook_, "on_attribute_comment", "")
+                    cur_rq.append(i)
+                if rs is not None and cur_rs is None:
+                    call(b_, hook_, "on_service_response_marker")
+                    cur_rs = []
+                for i in (rs or [])[len(cur_rs or []):]:
+                    call(b_, hook_, "on_field", T(i), "f%d" % i)
+                    call(b_, hook_, "on_attribute_comment", "")
+                    cur_rs.append(i)  # type: ignore
+                now = cur_rs if cur_rs is not None else cur_rq
+                want = elements(spec_structure([T(i) for i in now]))
+                got = call(b_, hook_, "resolve_top_level_identifier", "_offset_")
                 ctx.count()
-                if repr(got) != repr(elements(want_var)):
-                    bad_seq.append({"asked in": "%s, then %s" % (a_label, b_label), "at": label, "found": repr(got)[:120], "expected": repr(elements(want_var))})
-    sections[:] = states["response, 1 field"][0]()
-    results = {"K": ask("K"), "nope": ask("nope")}
-    ctx.count(2)
-    want_r = {"K": "VK", "nope": "raise UndefinedIdentifierError"}
-    ctx.check(not bad_seq and repr(results) == repr(want_r), rt.short, "_offset_ -> Set(map(Rational, current schema's offset)) at every point of a growing two-section definition; constants of the current schema by name", "`_offset_` evaluates to the set of lengths of everything before this point in the current schema", rt.where(), {"offset": bad_seq[:3], "identifiers": {k: repr(v)[:120] for k, v in results.items()}})
-    # _bit_length_ / _extent_
-    ser = ctx.cls(SER + "_serializable.SerializableType")
-    comp = ctx.cls(SER + "_composite.CompositeType")
-    for c, intrinsic, me_kw, want_v in (
-        (ser, "_bit_length_", {"bit_length_set": TBls.var("BLS")}, ("Set", (("Rational", ("ELEMENTS-OF", ("var", "BLS", 1))),))),
-        (comp, "_extent_", {"extent": 4242, "constants": [Sym(name="K", value="VK")], "bit_length_set": TBls.var("BLS")}, ("Rational", 4242)),
-    ):
-        at = c.methods.get("_attribute")
-        if at is None:
-            raise AnalysisError("anchor %s._attribute missing" % c.name)
-        res = {}
-        for nm in (intrinsic, "K", "zzz"):
-            me = make_obj(ctx, c, **me_kw)
-            try:
-                res[nm] = Folder({"self": me, "n": Sym(native_value=nm)}, repo, at.module, c, _expr_hook(ctx, at.module, c)).fold(ast.parse("self._attribute(n)", mode="eval").body)
-            except Raised as r:
-                res[nm] = "raise " + r.cls_name
-            except Unfoldable as ex:
-                raise AnalysisError("%s: cannot evaluate: %s" % (at.short, ex))
-            ctx.count()
-        good = repr(res[intrinsic]) == repr(want_v) and isinstance(res["zzz"], tuple) and res["zzz"][:2] == ("SUPER", "_attribute")
-        if c is comp:
-            good = good and repr(res["K"]) == repr("VK")
-        ctx.check(good, c.short + "._attribute", "%s -> %s; unknown -> super()" % (intrinsic, repr(res[intrinsic])[:60]), "`T.%s` is the layout model's answer" % intrinsic, at.where(), {k: repr(v)[:100] for k, v in res.items()})
-    # every _attribute override falls back to super()
-    any_c = ctx.cls("_expression._any.Any")
-    for c in repo.subclasses(any_c, strict=True):
-        m = c.methods.get("_attribute")
-        if m is None:
-            continue
-        falls = [cl for cl in calls_in(ctx.inl(m)) if isinstance(cl.func, ast.Attribute) and cl.func.attr == "_attribute" and isinstance(cl.func.value, ast.Call) and dotted(cl.func.value.func) == "super" and len(cl.args) == 1]
-        ctx.check(len(falls) >= 1, m.short, "falls back to super()._attribute(name)", "unknown attributes must reach the parent classes (and finally the undefined-attribute error)", m.where(), nontrivial=False)
+                if repr(got) != want:
+                    bad_seq.append({"asked in": "%s, then %s" % (a_label, b_label), "at": label, "found": repr(got)[:140], "expected": want[:140]})
+    # constants are looked up in the current section only
+    b_, hook_ = fresh()
+    call(b_, hook_, "on_constant", T(9), "K", VAL1)
+    call(b_, hook_, "on_attribute_comment", "")
+    results = {"K in the request": call(b_, hook_, "resolve_top_level_identifier", "K"), "nope": call(b_, hook_, "resolve_top_level_identifier", "nope")}
+    call(b_, hook_, "on_service_response_marker")
+    results["K in the response before it is defined there"] = call(b_, hook_, "resolve_top_level_identifier", "K")
+    call(b_, hook_, "on_constant", T(9), "K", VAL2)
+    call(b_, hook_, "on_attribute_comment", "")
+    results["K in the response"] = call(b_, hook_, "resolve_top_level_identifier", "K")
+    ctx.count(4)
+    want_r = {"K in the request": VAL1, "nope": "raise UndefinedIdentifierError", "K in the response before it is defined there": "raise UndefinedIdentifierError", "K in the response": VAL2}
+    ctx.check(not bad_seq and all(results[k] is want_r[k] or results[k] == want_r[k] for k in want_r), rt.short, "_offset_ -> Set(map(Rational, current schema's offset)) at every point of a growing two-section definition; constants of the current schema by name", "`_offset_` evaluates to the set of lengths of everything before this point in the current schema", rt.where(), {"offset": bad_seq[:3], "identifiers": {k: repr(getattr(v, "label", v))[:80] for k, v in results.items()}})
+    # _bit_length_ / _extent_ / constants as attributes of a type: instances are constructed over abstract arguments and asked
+    from . import c05 as M
+
+    lh = _layout_hook(ctx, rt.module, None)
+
+    def records_hook(e: ast.expr, f: Folder) -> Any:
+        r = lh(e, f)
+        if r is not NotImplemented:
+            return r
+        if isinstance(e, ast.Call):
+            name = dotted(e.func) or ""
+            last = name.split(".")[-1]
+            if last in ("Rational", "Set", "String", "Boolean") and name.split(".")[0] in ("_expression", last):
+                args = [f.fold(a) for a in e.args]
+                return (last,) + tuple(tuple(a) if isinstance(a, list) else a for a in args)
+            if name == "map" and len(e.args) == 2:
+                try:
+                    k = f.fold(e.args[0])
+                except Unfoldable:
+                    k = None
+                if isinstance(k, ClassInfo):
+                    return [(k.name, x) for x in f.fold(e.args[1])]
+        return NotImplemented
+
+    def ask(o: Any, nm: str) -> Any:
+        try:
+            return Folder({"o": o, "n": Sym(native_value=nm)}, repo, o._cls_.module, o._cls_, records_hook).fold(ast.parse("o._attribute(n)", mode="eval").body)
+        except Raised as r:
+            return "raise " + r.cls_name
+        except Unfoldable as ex:
+            raise AnalysisError("%s._attribute(%r): cannot evaluate: %s" % (o._cls_.name, nm, ex))
+
+    VAL = Sym(_kind_="value", label="the constant's value")
+    kc = M.attribute_sym(ctx, "Constant", "K")
+    kc.value = VAL
+    prim = M._construct_outcome(ctx, ctx.cls(SER + "_primitive.UnsignedIntegerType"), 8, "CastMode.TRUNCATED")
+    st2 = M.structure(ctx, attributes=[M.attribute_sym(ctx, "Field", "a", bits=8), M.attribute_sym(ctx, "Field", "b", bits=24), kc])
+    if isinstance(prim, str) or isinstance(st2, str):
+        raise AnalysisError("model instances cannot be constructed over abstract arguments: %s / %s" % (prim, st2))
+    dl = M.build_model(ctx, SER + "_composite.DelimitedType", inner=st2, extent=64)
+    if isinstance(dl, str):
+        raise AnalysisError("DelimitedType(...) over abstract arguments raised %s" % dl)
+    set_of = lambda n: ("Set", (("Rational", ("ELEMENTS-OF", ("leaf", frozenset([n])))),))  # noqa: E731
+    cases = [
+        ("uint8", prim, {"_bit_length_": set_of(8), "_extent_": "raise UndefinedAttributeError", "zzz": "raise UndefinedAttributeError"}),
+        ("structure {uint8 a, uint24 b, K}", st2, {"_bit_length_": set_of(32), "_extent_": ("Rational", 32), "K": VAL, "zzz": "raise UndefinedAttributeError"}),
+    ]
+    for label, o, want_d in cases:
+        got_d = {nm: ask(o, nm) for nm in want_d}
+        ctx.count(len(want_d))
+        good = all((got_d[k] is want_d[k]) or repr(got_d[k]) == repr(want_d[k]) for k in want_d)
+        at = repo.lookup_method(o._cls_, "_attribute")
+        ctx.check(good, o._cls_.short + "._attribute", "%s: %s" % (label, {k: repr(getattr(v, "label", v))[:50] for k, v in got_d.items()}), "`T._bit_length_` / `T._extent_` / `T.K` are the layout model's answers; anything else is an undefined attribute", at.where() if at else o._cls_.module.relpath, {"expected": {k: repr(getattr(v, "label", v))[:60] for k, v in want_d.items()}})
+    ge = ask(dl, "_extent_")
+    ctx.count()
+    ctx.check(repr(ge) == repr(("Rational", 64)), dl._cls_.short + "._attribute", "delimited: _extent_ -> %r" % (ge,), "`T._extent_` of a delimited type is the declared extent", dl._cls_.module.relpath)
 
 
 def run(ctx: Ctx) -> None:
